@@ -558,7 +558,8 @@ class QuotientMod(Sub):
     # pairs at which the float quotient rounds onto a whole number, and whole numbers beyond 2^53 against float divisors
     PAIRS = [('0.8999999999999999', '0.3'), ('6.999999999999999', '0.7'), ('9007199254740991', '1.5'), ('9007199254740993', '1.0'),
              ('9007199254740993', '0.5'), ('9007199254740993', '2.0'), ('9007199254740993', '3.0'), ('0.3', '0.1'), ('-0.8999999999999999', '0.3'),
-             ('2.6999999999999997', '0.9'), ('9007199254740995', '2.5'), ('1.0000000000000002', '0.1'), ('4.35', '0.05'), ('0.57', '0.01')]
+             ('2.6999999999999997', '0.9'), ('9007199254740995', '2.5'), ('1.0000000000000002', '0.1'), ('4.35', '0.05'), ('0.57', '0.01'),
+             ('3e-200', '-1e-200'), ('-3e-200', '1e-200'), ('1e-120', '-2e-300'), ('-7e-310', '-2e-310')]      # products that underflow
 
     def cases(self, tier, unit):
         for fn in ('QUOTIENT', 'MOD'):
@@ -811,6 +812,13 @@ class HexRoundTrip(Sub):
             r = getnum(o)
             if r is None or r != n:
                 return fail('HEX2DEC(DEC2HEX(xn)) with xn=%d gives %r; expected %d' % (n, o, n), n, o, case=narrow)
+            if n % 7 == 0 or -300 < n < 300 or abs(abs(n) - P39) < 40:
+                # hexadecimal digits read the same in either letter case: the spelling in lower case denotes the same number
+                o = env.evo('HEX2DEC(LOWER(DEC2HEX(xn)))', {'xn': n})
+                r = getnum(o)
+                if r is None or r != n:
+                    return fail('HEX2DEC(LOWER(DEC2HEX(xn))) with xn=%d gives %r; expected %d (the digits in lower case)' % (n, o, n), n, o,
+                                case=narrow)
             return None
         env.nt()
         if kind == 'd2h_out':
@@ -1131,6 +1139,7 @@ class RoundWholeFloats(WholeFloats):
         ('BASE({0},{1},{2})', [(5, 2, 8), (255, 16, 1)]),
         ('DECIMAL("11",{0})', [(2,), (16,), (36,)]),
         ('DECIMAL(BASE({0},{1}),{1})', [(255, 16), (1000, 7)]),
+        ('DECIMAL(BASE(10000000000000000000,{0}),{0})', [(3,), (7,), (36,)]),      # a long number: a float radix must not drag it into floats
         ('ROMAN({0})', [(4,), (1999,), (3999,)]),
         ('ROMAN({0},{1})', [(499, 0), (499, 2), (499, 4)]),
         ('FACT({0})', [(0,), (5,), (20,)]),
